@@ -569,7 +569,14 @@ impl Engine for C17 {
                                 let lo = if ci == 0 { 0 } else { prep.ends[ci - 1] as usize };
                                 let hi = (prep.ends[ci] as usize).min(src.delivered().len());
                                 let piece = src.delivered()[lo..hi].to_vec();
-                                if let Ok(Ok(ft)) = no_panic(|| duke::read_class(&mut Cursor::new(&piece))) {
+                                // Only when the damaged bytes are still a well-formed class file (strict reference parser: every
+                                // attribute_length exact): on a file whose lengths contradict its contents a reader that SKIPS an
+                                // attribute by its length and one that PARSES it legitimately continue at different offsets, and
+                                // C17 speaks about class files (false alarm of a thorough sweep under VERIF_SEED=1: a flipped Utf8
+                                // length in the pool of corpus class j17/corp/Marks)
+                                if refclass::parse(&piece).is_err() {
+                                    st.probe("flipped.not_wellformed_unjudged");
+                                } else if let Ok(Ok(ft)) = no_panic(|| duke::read_class(&mut Cursor::new(&piece))) {
                                     if let (Ok(full), Ok(got)) = (project(&ft), project(&t)) {
                                         let plan_all = if p.visitor == VisitorKind::Tree { Plan { mask: Mask::all(), declined: vec![], ..p.clone() } } else { p.clone() };
                                         let one = Prepared { stream: vec![], ends: vec![], full: vec![full], trees: vec![] };
